@@ -111,7 +111,17 @@ def results_under_cache_root(A: Analysis, col: Collector, rule: str):
     else:
         col.fail(rule, cd.qualname, "cache_dir-not-root/checksum", "Job.cache_dir is no longer <cache_root>/<checksum>: results may be written outside the cache root", A.loc(cd.node))
     for R in run_functions(A):
+        writers = []
         for c in R.save_calls + R.record_calls:
+            # a helper method of Job that does the write: look at the write inside it (its `self` is the job)
+            direct = any(q.endswith(".save") or q.endswith("record_error") for q in A.callee_names(c, R.fn))
+            if direct:
+                writers.append(c)
+            else:
+                for h in [t for t in A.rs.resolve_call(c, R.fn).repo_targets if hasattr(t, "node")]:
+                    inner = [k for k in A.calls(h) if any(q.endswith(".save") or q.endswith("record_error") for q in A.callee_names(k, h))]
+                    writers += inner or [c]
+        for c in writers:
             a0 = c.args[0] if c.args else None
             if a0 is not None and norm(a0) == "self.cache_dir":
                 col.ok(rule, f"{R.fn.qualname}: `{norm(c, 50)}` writes under self.cache_dir", A.loc(c))
